@@ -12,19 +12,21 @@ from .tlc import MachineryError
 
 # property -> (level, [engine module names])
 REGISTRY = {
-    "C01": ("model_checking", ["bloomfam"]),
+    "C01": ("model_checking", ["bloomfam", "expanding"]),
     "C02": ("model_checking", ["countmin"]),
     "C03": ("model_checking", ["cuckoo"]),
     "C04": ("model_checking", ["qf"]),
-    "C05": ("model_checking", ["bloomfam", "countmin", "cuckoo"]),
+    "C05": ("model_checking", ["bloomfam", "countmin", "cuckoo", "expanding"]),
     "C08": ("model_checking", ["bloomfam", "cuckoo"]),
+    "C09": ("model_checking", ["expanding"]),
+    "C10": ("model_checking", ["expanding"]),
     "C12": ("model_checking", ["bloomfam", "countmin"]),
     "C13": ("model_checking", ["bloomfam", "countmin"]),
-    "C14": ("model_checking", ["bloomfam", "countmin", "qf", "cuckoo"]),
+    "C14": ("model_checking", ["bloomfam", "countmin", "qf", "cuckoo", "expanding"]),
     "C16": ("model_checking", ["bloomfam", "countmin"]),
     "C15": ("model_checking", ["cuckoo"]),
     "C17": ("model_checking", ["countmin"]),
-    "C19": ("model_checking", ["bloomfam", "countmin", "qf", "cuckoo"]),
+    "C19": ("model_checking", ["bloomfam", "countmin", "qf", "cuckoo", "expanding"]),
     "C20": ("model_checking", ["bitarray"]),
 }
 
